@@ -33,6 +33,7 @@ type TStorm struct {
 	DialDelayMs  int    `json:"dial_delay_ms"`  // the server's outbound dials (Connect) take this long
 	DropCtrl     bool   `json:"drop_ctrl"`      // clients sometimes close their control connection and come back
 	ListenErrors bool   `json:"listen_errors"`  // relay listeners sometimes fail in Accept
+	AcceptSpin   int    `json:"accept_spin"`    // the listener's Accept yields this often before it returns a connection
 	Dialers      int    `json:"dialers"`        // goroutines that open a fresh control connection every round (also while Server.Close runs)
 	TCPStorm     bool   `json:"tcp_storm"`      // format marker
 }
@@ -87,6 +88,7 @@ func runTStormInner(s *TStorm) (res stormResult) { //nolint:cyclop,gocyclo,maint
 		return stormResult{kind: "harness", msg: err.Error()}
 	}
 	w.gen.dialDelay = time.Duration(s.DialDelayMs) * time.Millisecond
+	w.lis.AcceptSpin = s.AcceptSpin
 	var mu sync.Mutex
 	actions, tcpAllocs, inbound, binds := 0, 0, 0, 0
 	var relays []*net.TCPAddr // relayed addresses that were handed out (peers dial them)
@@ -368,6 +370,15 @@ func runTStormInner(s *TStorm) (res stormResult) { //nolint:cyclop,gocyclo,maint
 		w.gen.mu.Unlock()
 	}
 	if res.kind == "" {
+		for _, cn := range w.net.Conns() {
+			if la, ok := cn.LocalAddr().(*net.TCPAddr); ok && la.Port == ServerPort && la.IP.Equal(ServerIP4) && !cn.IsClosed() {
+				res.kind, res.msg = "control-connection-open-after-close", fmt.Sprintf("the server still holds its end of %v two hours after Server.Close (accepted while Close was running)", cn)
+
+				break
+			}
+		}
+	}
+	if res.kind == "" {
 		if nAlloc := w.srv.AllocationCount(); nAlloc != 0 {
 			res.kind, res.msg = "allocations-after-close", fmt.Sprintf("AllocationCount() = %d after Server.Close and two hours", nAlloc)
 		}
@@ -412,6 +423,7 @@ func genTStorm(rt *rapid.T) *TStorm {
 	}
 	s.DropCtrl = rapid.Bool().Draw(rt, "dropCtrl")
 	s.Dialers = rapid.SampledFrom([]int{0, 1, 4, 8}).Draw(rt, "dialers")
+	s.AcceptSpin = rapid.SampledFrom([]int{0, 0, 50, 400, 2000}).Draw(rt, "acceptSpin")
 	s.ListenErrors = rapid.Bool().Draw(rt, "listenErrors")
 
 	return s
